@@ -70,6 +70,19 @@ J gen_seq(const std::string& prop, uint64_t run_seed, const std::string& tier) {
         if (outer.kind == MK_MAP) { MV k; k.kind = MK_UINT; k.width = 1; k.val = 1; outer.kids.push_back(k); }
         outer.kids.push_back(inner);
         if (g.chance(1, 3)) { MV t; t.kind = MK_TAG; t.val = 1; t.kids.push_back(outer); ref_encode(t, bytes); } else ref_encode(outer, bytes);
+      } else if (g.chance(1, 14)) {   // the densest input: a wide container of one-byte members as the last thing in a few single-child wrappers - no byte to spare anywhere
+        MV cur = dense_mv(g); unsigned nw = (unsigned)g.below(5);
+        for (unsigned k = 0; k < nw; k++) {
+          MV w;
+          switch (g.below(5)) {
+            case 0: w.kind = MK_TAG; w.val = g.below(24); w.kids.push_back(std::move(cur)); break;
+            case 1: case 2: w.kind = MK_ARRAY; w.definite = true; w.kids.push_back(std::move(cur)); break;
+            case 3: { w.kind = MK_MAP; w.definite = true; MV key; key.kind = MK_UINT; key.width = 1; key.val = 0; w.kids.push_back(key); w.kids.push_back(std::move(cur)); break; }
+            default: { w.kind = MK_MAP; w.definite = false; MV key; key.kind = MK_UINT; key.width = 1; key.val = 0; w.kids.push_back(key); w.kids.push_back(std::move(cur)); }
+          }
+          cur = std::move(w);
+        }
+        ref_encode(cur, bytes);
       } else ref_encode(gen_mv(g, gp), bytes);
     }
     gen_tail(g, gp, bytes);
@@ -112,7 +125,7 @@ struct SConn {
   std::vector<std::vector<uint64_t>> faults;
   uint64_t deliver_total = 0, base = 0, arrived = 0, off = 0, sent = 0, next_frag = 0, fragments = 0, calls = 0;
   bool stopped = false;
-  std::vector<MV> received; uint64_t items_with_suffix = 0, failing_calls = 0;
+  std::vector<MV> received; uint64_t items_with_suffix = 0, failing_calls = 0; bool cap_refused = false;
 };
 struct Event { uint64_t at, seq; int conn; bool operator>(const Event& o) const { return at != o.at ? at > o.at : seq > o.seq; } };
 }
@@ -185,6 +198,7 @@ void exec_seq(const J& plan) {
       } else {
         c.failing_calls++;
         if (r.memerror && o.fault.kind != F_NONE) continue;        // the injected fault is gone on the retry
+        if (r.memerror && r.refused) c.cap_refused = true;   // a growth step beyond the allocator's single-request cap: permanent, and not the receiver's fault
         if (r.nedata) break;                                        // wait for more
         c.stopped = true;                                           // hard error: give up on this connection
       }
@@ -214,7 +228,8 @@ void exec_seq(const J& plan) {
     SConn& c = conns[i];
     total_items += c.received.size(); with_suffix += c.items_with_suffix; failing += c.failing_calls;
     std::vector<MV> exp; uint64_t off = 0; const uint8_t* p = c.stream.data(); uint64_t n = c.deliver_total;
-    while (off < n) { RefLoad r = ref_load(p + off, (size_t)(n - off), L, sa_max_request()); if (r.st != R_ITEM) break; exp.push_back(std::move(r.tree)); off += r.read; }
+    while (off < n) { if (c.cap_refused && exp.size() == c.received.size()) break;   /* memory did not permit the next one */
+      RefLoad r = ref_load(p + off, (size_t)(n - off), L, sa_max_request()); if (r.st != R_ITEM) break; exp.push_back(std::move(r.tree)); off += r.read; }
     std::string where = fmt("conn %zu (%llu bytes delivered in %llu fragment(s))", i, (unsigned long long)n, (unsigned long long)c.fragments);
     if (c.received.size() != exp.size()) { fail("C14", "sequence-item-count", where + fmt(": receiver obtained %zu item(s), the delivered bytes contain %zu", c.received.size(), exp.size())); break; }
     for (size_t k = 0; k < exp.size(); k++) if (!mv_equal(c.received[k], exp[k])) { fail("C14", "sequence-item-differs", where + fmt(": item %zu differs: got %s expected %s", k, mv_str(c.received[k]).c_str(), mv_str(exp[k]).c_str())); break; }
